@@ -167,19 +167,29 @@ fn read_body_port_message<'n>(
         return Err(WriterError::NodeNotFound("operation_name".to_string()));
     };
 
-    // if there are no parts defined we assume that the message is the same as the operation name
+    // without a parts attribute the body carries the parts of the message that are not bound to a
+    // header of the same direction
+    let header_parts: Vec<&str> = node
+        .parent()
+        .into_iter()
+        .flat_map(|direction| direction.children())
+        .filter(|n| n.is_element() && n.tag_name().name() == "header")
+        .filter_map(|header| header.attribute("part"))
+        .collect();
+    let is_body_part = |(name, _): &(&XmlName, _)| !header_parts.contains(&name.as_str());
+
     let (_name, (rust_node, _namespace)) = match in_or_out {
         InputOrOutput::Input => port_operation
             .input
             .message
             .parts
             .iter()
-            .next()
+            .find(is_body_part)
             .ok_or(WriterError::NodeNotFound(operation_name.to_string()))?,
         InputOrOutput::Output => port_operation
             .output
             .as_ref()
-            .and_then(|o| o.message.parts.iter().next())
+            .and_then(|o| o.message.parts.iter().find(is_body_part))
             .ok_or(WriterError::NodeNotFound(operation_name.to_string()))?,
     };
 
